@@ -195,6 +195,20 @@ def node_replace(old_kind, action, nid, extra=0, twice=0):
     sent = []
     net.send_message = lambda cid, data, remote=False: sent.append((cid, data))
     old = _mknode(old_kind, nid)
+    # the application listens on the node's ids as well (boot-up monitor, logger): these subscriptions are its own
+    user = []
+    user_ids = [0x700 + nid, 0x80 + nid, 0x580 + nid, 0]
+
+    class _User:
+        def __init__(self, cid):
+            self.cid = cid
+
+        def __call__(self, can_id, data, ts):
+            user.append((self.cid, ts))
+    user_cbs = [_User(cid) for cid in user_ids]
+    if action != "same":
+        for cb in user_cbs[:2]:
+            net.subscribe(cb.cid, cb)              # before the node joins
     chan = None
     if extra == 1 and old_kind == "remote":
         chan = old.add_sdo(0x640 + nid, 0x5C0 + nid)
@@ -203,6 +217,9 @@ def node_replace(old_kind, action, nid, extra=0, twice=0):
         chan = old.add_sdo(0x640 + nid, 0x5C0 + nid)
     if twice:
         old.associate_network(net)
+    if action != "same":
+        for cb in user_cbs[2:]:
+            net.subscribe(cb.cid, cb)              # after the node joined
     new = None
     if action == "same":
         # the very same node object is added again (add_node twice / net[i] = net[i]): it must stay connected
@@ -246,6 +263,10 @@ def node_replace(old_kind, action, nid, extra=0, twice=0):
         sx.observe("exc", C.exc_name(e))
         sx.fail("a handler of the removed node was still called (%s)" % C.exc_name(e), tag + "/stale-handler")
         return
+    # the application's own subscriptions on those ids are untouched: one call each for the frames above
+    for cid, ts in ((0x580 + nid, 1.0), (0x700 + nid, 2.0), (0x80 + nid, 3.0), (0, 4.0)):
+        sx.prove(len([1 for c, t in user if c == cid and t == ts]) == 1,
+                 "removing a node disturbed the application's own subscription on one of its ids", tag + "/user-callback")
     if chan is not None:
         sx.prove(chan.responses.empty(), "old node's additional SDO channel still receives", tag + "/old-sdo-channel")
         sx.reach("node-extra-channel")
